@@ -13,7 +13,7 @@ import (
 func init() {
 	register("C12", PropCheck{
 		Title:      "Saving session state to the filesystem store is crash-atomic",
-		Explain:    "The shape of the write protocol, which holds at every crash point because it is a property of every path: (R1) the functions reachable from fsDb.Put use only the file operations of the atomic-replace protocol - os.CreateTemp in the directory of the record, Write/Close (Sync/Chmod) on that temporary file, os.Rename of the temporary file's own name onto the record path, os.Remove of the temporary file - so the record path is never opened for writing; Write and Close precede the Rename on every path; every success path of Put passes the Rename; and nothing else in the filesystem back end renames onto or writes record names; (R2) in the engine's persister set-up the fallback Save after a failed Load is only reached on the true edge of db.IsNotFound(that error), and Persister.Load hands the store's error through unchanged; (R3) no directory-wide operation happens under Put (other sessions' records untouched); (R5) in the atomic writer the error of every write-side call on the temporary file (Write, Sync, Close) flows, possibly through a variable it is carried in, into a nil test whose nil edge dominates the rename - an error that is overwritten before it is tested lets a short write be renamed over the intact record (added after seeded change C12-H). (R6) from the failure edge of every read-side open in package db/fs, every path to the next store read or to a return that does not hand back that error passes the true edge of a not-exist test of that error: only 'does not exist' is a miss (added after seeded change C12-J).",
+		Explain:    "The shape of the write protocol, which holds at every crash point because it is a property of every path: (R1) the functions reachable from fsDb.Put use only the file operations of the atomic-replace protocol - os.CreateTemp in the directory of the record, Write/Close (Sync/Chmod) on that temporary file, os.Rename of the temporary file's own name onto the record path, os.Remove of the temporary file - so the record path is never opened for writing; Write and Close precede the Rename on every path; every success path of Put passes the Rename; and nothing else in the filesystem back end renames onto or writes record names; (R2) in the engine's persister set-up the fallback Save after a failed Load is only reached on the true edge of db.IsNotFound(that error), and Persister.Load hands the store's error through unchanged; (R3) no directory-wide operation happens under Put (other sessions' records untouched); (R5) in the atomic writer the error of every write-side call on the temporary file (Write, Sync, Close) flows, possibly through a variable it is carried in, into a nil test whose nil edge dominates the rename - an error that is overwritten before it is tested lets a short write be renamed over the intact record (added after seeded change C12-H). (R6) from the failure edge of every read-side open in package db/fs, every path to the next store read or to a return that does not hand back that error passes the true edge of a not-exist test of that error: only 'does not exist' is a miss (added after seeded change C12-J). (R7) one snapshot per request: Persister.Save is called only by Finish (or a helper only Finish calls) and by the function that loads sessions (added after seeded change C12-K).",
 		NotDecided: "durability under power loss (no fsync is required by the property); that the file system's rename is atomic (trusted: POSIX); crash points inside the temporary-file write are harmless by R1 and are not enumerated.",
 		Assume:     []string{"POSIX rename(2) atomically replaces the target within one directory"},
 		Run:        runC12,
